@@ -77,14 +77,15 @@ int splinetable_read_key(const struct splinetable* table, splinetable_dtype type
 						 const char* key, void* result){
 	if(!table || !table->data || !key || !result)
 		return(1);
+	bool found=false;
 	try{
 		const auto& real_table=*static_cast<const photospline::splinetable<>*>(table->data);
 		switch(type){
 			case SPLINETABLE_INT:
-				real_table.read_key(key,*static_cast<int*>(result));
+				found=real_table.read_key(key,*static_cast<int*>(result));
 				break;
 			case SPLINETABLE_DOUBLE:
-				real_table.read_key(key,*static_cast<double*>(result));
+				found=real_table.read_key(key,*static_cast<double*>(result));
 				break;
 		}
 	}catch(std::exception& ex){
@@ -93,7 +94,7 @@ int splinetable_read_key(const struct splinetable* table, splinetable_dtype type
 	}catch(...){
 		return(1);
 	}
-	return(0);
+	return(found?0:1);
 }
 
 int splinetable_write_key(struct splinetable* table, splinetable_dtype type,
@@ -195,8 +196,15 @@ double ndsplineeval_deriv(const struct splinetable* table, const double* x,
 	
 int splinetable_convolve(struct splinetable* table, const int dim,
                          const double* knots, size_t n_knots){
-	auto& real_table=*static_cast<photospline::splinetable<>*>(table->data);
-	real_table.convolve(dim, knots, n_knots);
+	try{
+		auto& real_table=*static_cast<photospline::splinetable<>*>(table->data);
+		real_table.convolve(dim, knots, n_knots);
+	}catch(std::exception& ex){
+		fprintf(stderr,"%s\n",ex.what());
+		return(1);
+	}catch(...){
+		return(1);
+	}
 	return(0);
 }
 	
